@@ -34,12 +34,11 @@ ASSUMPTIONS = [
     'compile-time / fixed / bounded shape kinds of the same routines are in the C09/C11 kind matrix, not here (dynamic shapes only)',
 ]
 PARTIAL = [
-    'kron_small_scope_partial: kron = specKron (shape and the single product term at every index) only for operand ranks <= 2 with extents 1..3 and ranks (1|2,3),(3,1|2) with extents 1..2 (kernel decide); missing for arbitrary rank: closed form of kron_dst_transpose and the pair-merging reshape',
     'matmul_elem_eq_sum covers view::matmul for operand ranks >= 2 only: with a 1-d operand the unchanged view throws / is undefined (known finding matmul.v1-1d-operand, matmul_v1_1d_counterexample); matmulv2_eq_def covers all ranks >= 1',
     'trace_eq_def covers 0 <= offset < extent(axis2) (non-empty diagonal); negative offsets are a known finding (trace_negative_offset_counterexample), empty diagonals crash in the reducer (known finding trace.empty-diagonal, no model)',
 ]
 MANIFEST = dict(
-    text='Proof: 17 Lean theorems over a symbolic term-list model (for every destination index the ordered list of (lhs index, rhs index) products a routine sums): index::shape_matmul = NumPy rule on all pairs (isSome iff accepted); view::matmul (ranks >= 2) and view::matmulv2 (all ranks >= 1, batch broadcasting, 1-d promotion) sum exactly a[..,i,k]*b[..,k,j], k in order; dot, inner, outer, vecdot, tensordot (integer and explicit axes, negative spellings), trace(offset >= 0) equal their NumPy definitions for every rank/extent; kron is partial (full statement only on rank <= 2 / extents <= 3 and ranks (1|2,3),(3,1|2) / extents <= 2 by kernel decide). Tied to the C++ on every run by a differential run of all eight routines (element access and eval) + pipeline shape helpers against the model and against NumPy.',
+    text='Proof: 19 Lean theorems over a symbolic term-list model (for every destination index the ordered list of (lhs index, rhs index) products a routine sums): index::shape_matmul = NumPy rule on all pairs (isSome iff accepted); view::matmul (ranks >= 2) and view::matmulv2 (all ranks >= 1, batch broadcasting, 1-d promotion) sum exactly a[..,i,k]*b[..,k,j], k in order; dot, inner, outer, vecdot, tensordot (integer and explicit axes, negative spellings), kron (incl. the closed form of kron_dst_transpose for all ranks), trace(offset >= 0) equal their NumPy definitions for every rank/extent. Tied to the C++ on every run by a differential run of all eight routines (element access and eval) + pipeline shape helpers against the model and against NumPy.',
     note='Lean kernel + propext/Classical.choice/Quot.sound; hand-written model (view combinators reshape/tile/transpose/broadcast-multiply/sum mirrored from the headers), fidelity rests on the correspondence run; broadcast_to index map taken in per-axis form (C06); dynamic-shape arrays only (static/bounded kinds in C09/C11); 3 genuine defects of the unchanged tree are known findings (view::matmul with a 1-d operand, trace/diagonal with negative offset, trace over an empty diagonal).',
     technique='Lean 4 proofs over symbolic term lists (which (lhs index, rhs index) pairs are summed, in order) for every rank/extent + differential correspondence against the real views (element access and eval) + NumPy oracle')
 
